@@ -160,7 +160,10 @@ func replay(r *ev.Run) {
 	if err := json.Unmarshal(doc.Replay, &b); err != nil {
 		ev.Fatal("replay: %v", err)
 	}
+	so := os.Stdout
+	silenceStdout() // the read path prints decode errors on stdout
 	res := checkBatch(&b)
+	os.Stdout = so
 	r.AddEval(1)
 	r.TracesValidated += res.RealTraces
 	r.States, r.Transitions = 1, 1
